@@ -141,6 +141,9 @@ func (l *linkedNode) flatten() map[NodeID]struct{} {
 
 		// Skip already flattened nodes
 		if _, ok := flattened[node.nodeID]; ok {
+			// The same node ID may appear more than once in a pipeline, the
+			// nodes linked after it still have to be visited.
+			stack = append(stack, node.next...)
 			continue
 		}
 
